@@ -79,14 +79,15 @@ func loadKnown(path string) ([]knownFinding, error) {
 		}
 		rest := strings.TrimSpace(strings.TrimPrefix(line, "known:"))
 		var kf knownFinding
-		for _, tok := range strings.SplitN(rest, " ", 3) {
-			switch {
-			case strings.HasPrefix(tok, "property="):
-				kf.Property = strings.TrimPrefix(tok, "property=")
-			case strings.HasPrefix(tok, "key="):
-				kf.Key = strings.TrimPrefix(tok, "key=")
-			default:
-				kf.Text = tok
+		// known: property=<id> key=<rule|construct> :: <what fails>      (the key may contain spaces; " :: " ends it)
+		if i := strings.Index(rest, " :: "); i >= 0 {
+			kf.Text = strings.TrimSpace(rest[i+4:])
+			rest = rest[:i]
+		}
+		if strings.HasPrefix(rest, "property=") {
+			if j := strings.Index(rest, " key="); j >= 0 {
+				kf.Property = strings.TrimPrefix(rest[:j], "property=")
+				kf.Key = strings.TrimSpace(rest[j+5:])
 			}
 		}
 		if kf.Property != "" && kf.Key != "" {
